@@ -32,7 +32,8 @@ FUNCTIONS = [
 ]
 BOUNDS = {
     "quick": "one operation from an arbitrary symbolic state (HDC, direct sampling, AND, OR and design conditions: from "
-             "one fixed concrete state, their symbolic exploration forks too much): 17 evaluation / contour / export entry points on 2-D and "
+             "one fixed concrete state, their symbolic exploration forks too much; design conditions additionally with a caller-owned float64 array of two "
+             "symbolic abscissae anywhere around a concrete pentagon, both swap_axis values): 18 evaluation / contour / export entry points on 2-D and "
              "3-D models (2 rotations), input arrays of 2-4 rows; 6 predefined getters called twice; histories fit A -> "
              "fit B (fresh description) for all 6 getters with scipy estimators and curve_fit stubbed",
     "thorough": "7 rotations, all 3-D structures, repeated evaluation twice",
@@ -276,11 +277,6 @@ def h_frame(h):
         ax = 1 if h.cfg.get("swap") else 0
         lo_, hi_ = inputs["cpoly"][:, ax].min(), inputs["cpoly"][:, ax].max()
         arr("steps", (2,), lo_ - 0.25, hi_ + 0.25)
-        for st_ in inputs["steps"]:
-            # general position as in C17: a probe line through a vertex makes the routine report that vertex twice and
-            # calculate_design_conditions then fails its own `assert len(x) <= 2` (outside C17's and this claim)
-            for v in sorted(set(inputs["cpoly"][:, ax])):
-                real_h.assume(sym.Or(st_ >= v + 3e-6, st_ <= v - 3e-6) if h.sym else abs(st_ - v) >= 2e-6)
     if op in ("plot", "plot_swap"):
         arr("dc", (2, 2), 0.5, 6.0)
     if op == "ew_pdf":
